@@ -178,6 +178,32 @@ theorem early_tmp_gone_partial (ct : ConvTable) (p : Plan) (t0 : Tbl) (e : Err)
         rw [htry] at hearly
         exact absurd (elseBranch_trace _) hearly
 
+/-! ## the guarded region: nothing before DROP of the original touches the original -/
+
+/-- **The recreate's statement list.**  For every plan, fault index and connection mode: the first statement is `CREATE TABLE` of the
+temporary table, and every statement issued before the first `DROP <original>` is one of `CREATE TABLE tmp`, `CREATE INDEX … ON tmp`,
+`INSERT INTO tmp … SELECT`, `DROP TABLE tmp` — it has the temporary table as its only target (`Lemmas.Batch.safe`); in particular no
+statement is issued *before* `CREATE TABLE tmp` (outside the guarded region) that could change the original durably. -/
+theorem statements_before_drop_target_tmp (ct : ConvTable) (fault : Option Nat) (p : Plan) (db0 : Db) (mode : ConnMode) :
+    (run ct fault p db0 mode).1.trace.head? = some (.createTmp p.newSchema) ∧ PreDropSafe (run ct fault p db0 mode).1.trace := by
+  unfold run
+  exact create_trace_shape rfl
+
+/-- a statement with the temporary table as its only target leaves the original — definition, indexes, rows — as it is -/
+theorem safe_statement_keeps_original (ct : ConvTable) (db db' : Db) (s : Stmt) (hs : safe s = true)
+    (h : applyStmt ct db s = .ok db') : db'.orig = db.orig :=
+  applyStmt_safe_orig hs h
+
+/-- **C11.early, indexes explicitly.**  After every failure at or before `DROP` of the original the original table's indexes (names,
+columns, uniqueness, `WHERE` predicates, in order) are exactly those it had — as are its definition and rows. -/
+theorem early_indexes_intact (ct : ConvTable) (fault : Option Nat) (commitOnError : Bool) (p : Plan) (mode : ConnMode) (db0 : Db) (t0 : Tbl)
+    (h0 : db0.orig = some t0) (hearly : Early (run ct fault p db0 mode)) :
+    (final ct fault commitOnError p db0 mode).orig.map (·.schema.indexes) = some t0.schema.indexes ∧
+    (final ct fault commitOnError p db0 mode).orig.map (·.schema) = some t0.schema ∧
+    (final ct fault commitOnError p db0 mode).orig.map (·.rows) = some t0.rows := by
+  rw [early_orig_intact ct fault commitOnError p mode db0 t0 h0 hearly]
+  exact ⟨rfl, rfl, rfl⟩
+
 /-! ## the temporary table after an early failure: as strong as it is true -/
 
 /-- shape of finding C11-F2: the run ended in a later statement of `create_table` (a `CREATE INDEX` on the
@@ -347,6 +373,12 @@ example : ∀ k : FailKind, run [] (some 1) { w_plan1 with failKind := k } { ori
 /-- `transactional_ddl` is a field of the plan that nothing reads: the run is the same for both values -/
 example : run [] none { w_plan1 with transactionalDdl := true } { orig := some w_t0, tmp := none } =
     run [] none w_plan1 { orig := some w_t0, tmp := none } := rfl
+
+/-- `statements_before_drop_target_tmp` on a real run: the prefix before the DROP is non-trivial (CREATE TABLE, CREATE INDEX on the
+temporary table, INSERT) and the checker rejects an original that lost an index after an early failure -/
+example : ((run [] (some 3) w_plan2 { orig := some w_t0, tmp := none }).1.trace.map safe) = [true, true, true, false, true] := by decide
+example : Spec.Batch.check11 [] { w_t0 with schema := { w_t0.schema with indexes := [{ name := "ix", cols := ["a"], unique := false }] } }
+    [] true { orig := some w_t0, tmp := none } ≠ [] := by decide
 
 /-- the checker run on the implementation's observation rejects a lost row and a left-over temporary table -/
 example : Spec.Batch.check11 [] w_t0 [] true { orig := some { w_t0 with rows := [] }, tmp := none } ≠ [] := by decide
